@@ -57,7 +57,7 @@ def menu(lab, kind, small=False):
 
 
 def pmenu(n, small=False):
-    m = [["full"], ["s", 0], ["s", -1], ["s", n], ["l", [n - 1, 0]], ["l", [0, 0, n - 1]], ["l", []], ["nd", [n - 1, 0]],
+    m = [["full"], ["s", 0], ["s", -1], ["s", n], ["l", [n - 1, 0]], ["l", [0, 0, n - 1]], ["l", []], ["nd", [n - 1, 0]] if n % 2 else ["ndu", [n - 1, 0]],
          ["m", [i % 2 == 0 for i in range(n)]], ["m", [False] * n], ["l", [-1, -n]], ["nps", n - 1], ["sl", 1, None, None],
          ["l", [0, n]], ["nd", []]]
     if small:
@@ -88,6 +88,7 @@ def shards(tier):
         quad = list(itertools.product(AXV, repeat=4))
         for v in quad[::57]:
             out.append({"v": list(v), "part": "idx", "k": k}); k += 1
+    out.append({"v": [], "part": "objvals"})
     # tolerance
     for v in AXV:
         out.append({"v": [v], "part": "tol"})
@@ -109,6 +110,12 @@ def cases(sh, tier):
     if sh["part"] == "tol":
         for c in _tol_cases(v, tier):
             yield c
+        return
+    if sh["part"] == "objvals":
+        for i in range(2):
+            for j in range(3):
+                for sp in ("getitem", "loc", "dictn", "ix", "take", "sel"):
+                    yield {"objvals": [i, j], "sp": sp}
         return
     k = sh.get("k", 0)
     s = _spec(v, k)
@@ -202,9 +209,21 @@ def _tol_cases(v, tier):
                         yield {"a": e, "ix": [["nd", []]], "sp": "dictn", "mode": "label", "tol": tol}
                         yield {"a": e, "ix": [["l", [lab[0], nanq]]], "sp": "take", "mode": "label", "tol": tol}
                         yield {"a": e, "ix": [["nd", [nanq]]], "sp": "take", "mode": "label", "tol": tol}
+        if kind == "f":
+            # a tolerance attached to the AXIS (Axis(..., tol=)): used when the call gives none, overridden by the call's own - tol=0 included
+            for var in ("fresh",):
+                e = dict(s, var=var, axtol=[0.25])
+                for q in (lab[0] + 0.125, lab[0] + 0.375, lab[0]):
+                    for tol in (None, 0, 0.5, 0.03125):
+                        for sp in ("take", "dictn", "loc"):
+                            c = {"a": e, "ix": [["s", q]], "sp": sp, "mode": "label"}
+                            if tol is not None:
+                                c["tol"] = tol
+                            yield c
+                        yield dict({"a": e, "ix": [["l", [q, lab[-1]]]], "sp": "take", "mode": "label"}, **({} if tol is None else {"tol": tol}))
         if v[0] == ("i", "inc"):
             # narrow integer labels: the distance |label - query| does not fit the label dtype
-            for ldt, labs, q, tol in (("int8", [-100, 60], 120, 40), ("int8", [-100, 60], 120, 70), ("int32", [-2000000000, 1500000000], 2000000000, 600000000),
+            for ldt, labs, q, tol in (("uint8", [1, 5, 9], 6, 1), ("uint16", [1, 5, 9], 5.25, 0.5), ("uint64", [1, 5, 9], 7, 1), ("int8", [-100, 60], 120, 40), ("int8", [-100, 60], 120, 70), ("int32", [-2000000000, 1500000000], 2000000000, 600000000),
                                       ("int32", [-2000000000, 1500000000], 2000000000, 300000000), ("int16", [-30000, 100, 20000], 30000, 5000)):
                 e = dict(D.spec(["x"], [labs], ["i"]), ldt=[ldt])
                 for sp in ["take", "dictn", "loc"]:
@@ -224,10 +243,36 @@ def _tol_cases(v, tier):
 
 
 def state_key(case):
-    return case["a"]
+    return case.get("a") or "objvals"
+
+
+OBJVALS = [[None, [1, 2], "txt"], [{"k": 1}, (3, 4), 2.5]]
+
+
+def _check_objvals(case):
+    """an array of Python objects (values dtype object): a fully scalar index returns the very element stored there, whatever its type"""
+    vals = np.empty((2, 3), dtype=object)
+    for i in range(2):
+        for j in range(3):
+            vals[i, j] = OBJVALS[i][j]
+    a = DimArray(vals, axes=[common.Axis(np.array([10, 20]), "x"), common.Axis(np.array(["a", "b", "c"], dtype=object), "y")])
+    i, j = case["objvals"]
+    xl, yl = [10, 20][i], "abc"[j]
+    sp = case["sp"]
+    f = {"getitem": lambda: a[xl, yl], "loc": lambda: a.loc[xl, yl], "dictn": lambda: a.take({"x": xl, "y": yl}), "ix": lambda: a.ix[i, j],
+         "take": lambda: a.take((xl, yl)), "sel": lambda: a.sel(x=xl, y=yl)}[sp]
+    got = call(f)
+    want = OBJVALS[i][j]
+    if isinstance(got, Raised):
+        return bad("object array: {} index of the cell holding {!r} raised {}".format(sp, want, got), klass="unexpected-exception")
+    if type(got) is not type(want) or not (got is want or got == want):
+        return bad("object array: {} index of the cell holding {!r} returned {}".format(sp, want, common.describe(got)))
+    return ok("objvals", True)
 
 
 def check(case):
+    if "objvals" in case:
+        return _check_objvals(case)
     s = case["a"]
     ra = D.build_ref(s)
     a = D.build_impl(s)
@@ -278,8 +323,11 @@ def _judge(a, ra, case, first):
         kw["tol"] = tol
     if kd:
         kw["keepdims"] = True
+    reftol = tol
+    if tol is None and s.get("axtol") and case["mode"] == "label":
+        reftol = s["axtol"][0]          # the axis' own tolerance applies when the call gives none (1-D cases only)
     try:
-        alts = R.resolve_all(ra, s["kinds"], case["ix"], mode=case["mode"], tol=tol, keepdims=kd)
+        alts = R.resolve_all(ra, s["kinds"], case["ix"], mode=case["mode"], tol=reftol, keepdims=kd)
         expect = [R.select(ra, pd) for pd in alts]
     except R.RefRaises as e:
         expect = e
@@ -316,6 +364,8 @@ def _judge(a, ra, case, first):
 
 
 def snippet(case):
+    if "objvals" in case:
+        return "from mc.props import c01\nprint(c01.check({!r}))".format(case)
     s = case["a"]
     return ("from mc import domains as D, spell\na = D.build_impl({!r})\n"
             "print(spell.get(a, {!r}, {!r}, {!r}, tol={!r}, keepdims={!r}))").format(
@@ -324,6 +374,8 @@ def snippet(case):
 
 def triage_sig(case, detail, klass):
     import re
+    if "objvals" in case:
+        return (klass, "objvals", case["sp"])
     tags = sorted(set(ix[0] + ("[]" if ix[0] in ("l", "nd") and not ix[1] else "") for ix in case["ix"]))
     return (klass, case["mode"], case["sp"], "opt=" + str(case["a"].get("opt")), ",".join(tags), "tol" if "tol" in case else "",
             re.sub(r"[-0-9.]+", "#", detail)[:70])
